@@ -236,6 +236,36 @@ def extract_struct(text, name):
     return text[m.start():k + 1]
 
 
+def strip_attrs(text, names):
+    """remove `#[name(..)]` attributes (possibly spanning lines) from struct text"""
+    out, i = [], 0
+    rx = re.compile(r"[ \t]*#\[(%s)\b" % "|".join(names))
+    while i < len(text):
+        m = rx.match(text, i) if (i == 0 or text[i - 1] == "\n") else None
+        if not m:
+            j = text.find("\n", i)
+            j = len(text) if j < 0 else j + 1
+            out.append(text[i:j])
+            i = j
+            continue
+        k = text.index("[", m.start())
+        depth = 0
+        while True:
+            c = text[k]
+            if c in "[(":
+                depth += 1
+            elif c in "])":
+                depth -= 1
+                if depth == 0:
+                    break
+            elif c == '"':
+                k = text.index('"', k + 1)
+            k += 1
+        k = text.find("\n", k)
+        i = len(text) if k < 0 else k + 1
+    return "".join(out)
+
+
 def extract_fn(text, name):
     """Source text of `fn name(...) {...}` (with its attributes/visibility) by brace matching."""
     m = re.search(r"(?m)^[ \t]*(?:pub(?:\([a-z]+\))? )?fn %s\b" % re.escape(name), text)
@@ -312,11 +342,24 @@ def gen_lift():
     stext = open(os.path.join(C.REPO, "src/settings.rs")).read()
     body = extract_struct(stext, "Settings").replace("pub struct Settings {", "pub struct Settings {", 1)
     body = re.sub(r"(?m)^  (\w+): ", r"  pub \1: ", body)      # fields made pub so the shim's placeholder constructors can name them
-    sfile = ("// GENERATED at run time: `struct Settings`, `Settings::merge`, `or`, `or_defaults` and `default_data_dir` copied from /repo/src/settings.rs\n"
-             "// (fields are made `pub`; nothing else is changed)\nuse super::*;\nuse super::settings_shim::ContextErr as Context;\n\n%s\n\nimpl Settings {\n%s\n}\n"
-             % (body, "\n\n".join(extract_fn(stext, n) for n in ("merge", "or", "or_defaults", "default_data_dir"))))
+    sfile = ("// GENERATED at run time: `struct Settings`, `Settings::merge`, `or`, `or_defaults`, `default_data_dir` and `from_env` copied from /repo/src/settings.rs\n"
+             "// (fields are made `pub`; nothing else is changed)\nuse super::*;\nuse super::settings_shim::ContextErr as Context;\nuse super::settings_shim::WithContext;\n\n%s\n\nimpl Settings {\n%s\n}\n"
+             % (body, "\n\n".join(extract_fn(stext, n) for n in ("merge", "or", "or_defaults", "default_data_dir", "from_env"))))
     _write_if_changed(os.path.join(dst, "src", "lift/settings_extract.rs"), sfile)
     keep.add(os.path.join(dst, "src", "lift/settings_extract.rs"))
+    # Options: the clap struct with its clap attributes removed, and the real Settings::from_options
+    otext = open(os.path.join(C.REPO, "src/options.rs")).read()
+    ostruct = strip_attrs(extract_struct(otext, "Options"), ["arg", "command", "clap"])
+    ostruct = re.sub(r"#\[derive\([^)]*\)\]", "#[derive(Clone, Default, Debug)]", ostruct, 1)
+    ostruct = ostruct.replace("pub(crate) ", "pub ")
+    ostruct = "#[derive(Clone, Default, Debug, Deserialize)]\n#[serde(default)]\n" + ostruct[ostruct.index("pub struct"):]
+    fo = extract_fn(stext, "from_options").replace("pub fn from_options", "fn from_options", 1)
+    ofile = ("// GENERATED at run time: `struct Options` copied from /repo/src/options.rs (clap attributes removed, fields made pub)\n"
+             "// and the real `Settings::from_options` copied from /repo/src/settings.rs, attached through a trait so that it does not\n"
+             "// collide with the shim's placeholder of the same name\nuse super::*;\n\n%s\n\npub trait FromOptions {\n  fn from_options(options: Options) -> Self;\n}\n\n"
+             "impl FromOptions for Settings {\n%s\n}\n" % (ostruct, fo))
+    _write_if_changed(os.path.join(dst, "src", "lift/options_extract.rs"), ofile)
+    keep.add(os.path.join(dst, "src", "lift/options_extract.rs"))
     for to, (rp, fnames, tmpl) in LIFT_EXTRACTS_MULTI.items():
         text = open(os.path.join(C.REPO, rp)).read()
         body = "\n\n".join(extract_fn(text, fn) for fn in fnames)
